@@ -322,6 +322,9 @@ func c09writer(c c09case) interface{} {
 			f = func() c09res {
 				n, err := bg.Write(b)
 				want = append(want, b[:n]...)
+				for j := range b { // the caller recycles its buffer (io.Writer: p must not be retained)
+					b[j] ^= 0xa5
+				}
 				cl, m := c09class(err)
 				return c09res{Cls: cl, N: n, Msg: m, F: w.failed}
 			}
